@@ -71,6 +71,12 @@ type Engine struct {
 	Real, Simulated []string
 	// Expected lists probes that should be reached; the evidence warns when one stays at zero.
 	Expected []string
+	// Enum returns the cases of this batch that are enumerated exhaustively before the seeded search starts
+	// (case i of the enumeration belongs to batch i mod nbatch).
+	Enum func(tier string, batch, nbatch int) []any
+	// Isolate: a case may kill the worker process (runtime fatal error); the current case is written to
+	// $VERIF_OUT.lastcase before it runs so that the driver can attribute the crash and replay it.
+	Isolate bool
 }
 
 var Engines = map[string]*Engine{}
@@ -82,8 +88,8 @@ func Register(e *Engine) { Engines[e.Name] = e }
 type Finding struct {
 	Status   string `json:"status"` // "known" or "fixed"
 	Property string `json:"property"`
-	Class    string `json:"class"`  // exact violation class
-	Match    string `json:"match"`  // optional regexp on the detail text (predicate on the minimal case)
+	Class    string `json:"class"` // exact violation class
+	Match    string `json:"match"` // optional regexp on the detail text (predicate on the minimal case)
 	What     string `json:"what"`
 	Commit   string `json:"commit,omitempty"`
 	re       *regexp.Regexp
@@ -150,6 +156,7 @@ type Summary struct {
 	Seed       int64                `json:"seed"`
 	Race       bool                 `json:"race"`
 	Runs       int                  `json:"runs"`
+	EnumRuns   int                  `json:"enum_runs"`
 	ShrinkRuns int                  `json:"shrink_runs"`
 	Nontrivial int                  `json:"nontrivial"`
 	Keys       []string             `json:"keys"`
@@ -355,18 +362,23 @@ func RunWorker(t *testing.T, race bool) {
 		return
 	}
 
+	lastcase := ""
+	if e.Isolate && os.Getenv("VERIF_OUT") != "" {
+		lastcase = os.Getenv("VERIF_OUT") + ".lastcase"
+	}
+	mark := func(c any) {
+		if lastcase != "" {
+			cb, _ := json.Marshal(c)
+			b, _ := json.Marshal(replayFile{Engine: e.Name, Property: e.Prop, Class: "process-crash", Seed: seed, Batch: batch, Case: cb})
+			os.WriteFile(lastcase, b, 0644)
+		}
+	}
 	target := ""
 	var targetRec *violRec
 	seen := map[string]bool{}
-	rapid.Check(t, func(rt *rapid.T) {
-		c := e.Gen(rt, tier)
-		o := &Outcome{}
-		e.Exec(t, c, o)
-		if target == "" {
-			sum.add(c, o)
-		} else {
-			sum.ShrinkRuns++
-		}
+	// process evaluates the violations of one executed case; it returns the class to fail the rapid property with ("" = none)
+	process := func(c any, o *Outcome) string {
+		fail := ""
 		for _, v := range o.Viols {
 			if f := knownFinding(findings, e.Prop, v); f != nil {
 				k := sum.Known[f.Class+"|"+f.Match]
@@ -399,8 +411,56 @@ func RunWorker(t *testing.T, race bool) {
 				targetRec.Shrunk = true
 			}
 			targetRec.Detail, targetRec.Replay = v.Detail, p
-			rt.Fatalf("violation %s", v.Class) // constant text per class: rapid only accepts a shrink step when the message is unchanged
+			fail = v.Class
 		}
-	})
+		return fail
+	}
+	if e.Enum != nil {
+		nbatch := int(envInt("VERIF_NBATCH", 1))
+		for _, c := range e.Enum(tier, batch, nbatch) {
+			o := &Outcome{}
+			mark(c)
+			e.Exec(t, c, o)
+			sum.add(c, o)
+			sum.EnumRuns++
+			// enumerated cases are not shrunk: every class keeps the first (smallest, by enumeration order) failing case
+			for _, v := range o.Viols {
+				if f := knownFinding(findings, e.Prop, v); f != nil {
+					k := sum.Known[f.Class+"|"+f.Match]
+					if k == nil {
+						k = &knownRec{Class: f.Class, What: f.What, Detail: v.Detail}
+						k.Replay = writeReplay(replayDir, e, batch, seed, false, Viol{"known." + v.Class, v.Detail}, c)
+						sum.Known[f.Class+"|"+f.Match] = k
+					}
+					k.Count++
+					continue
+				}
+				if !seen[v.Class] {
+					seen[v.Class] = true
+					p := writeReplay(replayDir, e, batch, seed, false, v, c)
+					sum.Viols = append(sum.Viols, &violRec{Class: v.Class, Detail: v.Detail, Replay: p})
+				}
+			}
+		}
+	}
+	if runs > 0 {
+		rapid.Check(t, func(rt *rapid.T) {
+			c := e.Gen(rt, tier)
+			o := &Outcome{}
+			mark(c)
+			e.Exec(t, c, o)
+			if target == "" {
+				sum.add(c, o)
+			} else {
+				sum.ShrinkRuns++
+			}
+			if cls := process(c, o); cls != "" {
+				rt.Fatalf("violation %s", cls) // constant text per class: rapid only accepts a shrink step when the message is unchanged
+			}
+		})
+	}
+	if lastcase != "" {
+		os.Remove(lastcase)
+	}
 	sum.Complete = true
 }
